@@ -1508,6 +1508,7 @@ OBLIGATIONS = {
     'kv2_record_loop_skips_only_the_name_member': 'kv2_filter_ok gen_kv2_skip',
     'kv2_roots_are_exported_or_used_twice_or_keyword_typed': 'root_rule_ok gen_rootcfg',
     'binary_reader_keeps_strings_as_read': 'gen_bin_strings_stored_as_read',
+    'binformat_helpers_decode_with_the_codec_given': 'gen_bf_nullstr_decodes_with_codec && gen_bf_array_passes_codec_on',
     'kv2_name_line_written_for_every_element': 'gen_kv2_name_line_always',
     'kv2_id_line_left_out_only_for_culled_inline_blocks': 'id_written_ok gen_kv2_id_written',
     'property_binary_premises_hold_today': 'bin_cfg_ok gen_cfg && scalar_cfg_ok gen_scalar && sizes_match_formats gen_scalar gen_cfg && cnt_cfg_ok gen_cnt',
@@ -1521,6 +1522,7 @@ OBLIGATIONS = {
 # which concrete violation keys explain which failed obligation (substring of the key)
 EXPLAIN = {
     'instance:binary_reader_keeps_strings_as_read': ['binary', ''],
+    'instance:binformat_helpers_decode_with_the_codec_given': ['binary', 'nonascii'],
     'instance:scalar_codes_not_taken_for_arrays': ['binary', 'matrix-scalar'],
     'instance:stub_uuid_written_after_index': ['binary', 'stub'],
     'instance:codec_agrees_string_array': ['binary', 'string-array-nonascii'],
@@ -1724,7 +1726,10 @@ def run(ck: Ck) -> None:
         if o['name'] == 'translate:DmxCodes_gen' and not o['ok']:
             det = str(o.get('detail', ''))
             fmts = [pf for words, pf in ((('export_kv2', 'parse_kv2', '_kv2_'), 'kv2'), (('export_binary', 'parse_bin'), 'binary'),
-                                        (('from_kv1', 'to_kv1'), 'kv1-bridge')) if any(w in det for w in words)]
+                                        (('from_kv1', 'to_kv1'), 'kv1-bridge'),
+                                        # the element class itself: every format goes through it
+                                        (('Element.__init__', 'Element.name', 'Element.__len__'), 'binary'),
+                                        (('Element.__init__', 'Element.name', 'Element.__len__'), 'kv2')) if any(w in det for w in words)]
             if fmts and any(k.startswith(tuple(fmts)) for k in keys):
                 ck.explain('translate:DmxCodes_gen')
 
